@@ -87,7 +87,8 @@ def run(prop, repo="/repo"):
         meta = json.load(open(m))
         if prop in meta.get("expected_to_fire", []):
             jobs.append(("seeded", os.path.join(os.path.dirname(m), "patch.diff")))
-    for b in sorted(glob.glob(os.path.join(HERE, "selftest", "benign", "*.diff"))):
+    for b in sorted(glob.glob(os.path.join(HERE, "selftest", "benign", "*.diff")) +
+                    glob.glob(os.path.join(HERE, "selftest", "benign_r", "*.diff"))):
         jobs.append(("benign", b))
     fired = applicable = 0
     with ThreadPoolExecutor(max_workers=6) as ex:
